@@ -96,6 +96,8 @@ func (evt *startEvent) run(ctx context.Context, sender tracing.ISenderHandle) {
 					m.response <- completeAction{}
 				}
 			case startMessage:
+				// an explicit trigger arms the event again (a sub-process is started once per activation)
+				evt.activated.Store(false)
 				evt.flow(ctx)
 			case eventMessage:
 				if !evt.activated.Load() {
